@@ -166,21 +166,25 @@ fn read_escaped_string<'a>(c: &mut Cursor<&'a [u8]>) -> anyhow::Result<Option<&'
   c.set_position((pos + 2) as u64);
 
   let from = c.position() as usize;
-  let mut to = from;
 
-  loop {
+  // Position of a backslash that immediately precedes the byte being examined, if any.
+  let mut mark: Option<usize> = None;
+
+  let to = loop {
     let b = read_byte(c)?;
 
-    if b == b'\\' && to == from {
-      to = (c.position() - 1) as usize;
-    } else if b == esc_char && to != from {
-      break;
+    if b == b'\\' {
+      mark = Some((c.position() - 1) as usize);
+    } else if let Some(to) = mark
+      && b == esc_char
+    {
+      break to;
     } else if b == 0 {
       return Err(anyhow::anyhow!(MALFORMED_ERR_MSG));
-    } else if to != from {
-      to = from;
+    } else {
+      mark = None;
     }
-  }
+  };
   Ok(Some(&c.get_ref()[from..to]))
 }
 
